@@ -78,6 +78,8 @@ func init() {
 			E9HitCounting(c, r)
 			E9PendingPerSubpath(c, r)
 			E9InflectionAcrossLine(c, r)
+			E9CurveParameterDomain(c, r)
+			E11PieceFlagNotWholeArcs(c, r)
 			E11RemapIffSplit(c, r)
 			E9CubicDirection(c, r)
 			E3ContainmentFilter(c, r)
@@ -135,6 +137,7 @@ func init() {
 		Explanation: "Decides, for every input string: (1) each index of the input bytes in ParseSVGPath/skipCommaWhitespace is dominated by a bound check on every path through the function (path-sensitive guard facts over the AST, short-circuit aware); the per-command number-count table fits the number buffer; (2) no explicit panic(...) in the canvas module is reachable in the VTA call graph from ParseSVGPath or ParseSVG (restricted to the import closure of package canvas, since no value of another package's type can exist in that call tree) except the reviewed sites listed in the evidence. NOT decided: round-trip equality and number minification, implicit run-time panics other than the named index guards, termination, panics inside third-party Go dependencies (font parsing, shaping).",
 		Assumptions: []string{"cursor variables are non-negative (initialised to 0 and only incremented)", "strconv.ParseFloat (tdewolff/parse) returns 0 <= n <= len(b)", "third-party dependencies are trusted not to panic"},
 		Run: func(c *core.Ctx, r *core.Report) {
+			E11MagnitudeTestOnAbs(c, r)
 			E8Units(c, r)
 			E11RelativeBeforeUse(c, r)
 			E11ImplicitCommand(c, r)
@@ -245,6 +248,7 @@ func init() {
 			E11ArcSpanMagnitude(c, r)
 			E11ClampAfterSign(c, r)
 			E11ControlPointClausesSymmetric(c, r)
+			E11CursorRevalidatedAfterJoin(c, r)
 			E1PathMethods(c, r)
 			E2CmdLenTable(c, r)
 			E2RecordLayout(c, r)
@@ -321,6 +325,8 @@ func init() {
 		Run: func(c *core.Ctx, r *core.Report) {
 			E11ToleranceThreaded(c, r)
 			E11ArcFlagConsulted(c, r)
+			E11CursorRevalidatedAfterJoin(c, r)
+			E11PieceFlagNotWholeArcs(c, r)
 			E10Flatness(c, r)
 			E11RemapIffSplit(c, r)
 			E11FactorFromStep(c, r)
@@ -338,6 +344,7 @@ func init() {
 		Run: func(c *core.Ctx, r *core.Report) {
 			E11SignFlipPerIteration(c, r)
 			E11ArcJoinDirectionFlags(c, r)
+			E11BezierNormalHelper(c, r)
 			E11SplitKeepsEndpoint(c, r)
 			E11ToleranceThreaded(c, r)
 			E11SignedMagnitude(c, r)
@@ -357,6 +364,7 @@ func init() {
 			E1DashInputs(c, r)
 			E11DashPairTogether(c, r)
 			E11DashPeriod(c, r)
+			E11DashReductionDivides(c, r)
 			E11DashOffsetRange(c, r)
 			E11DashCover(c, r)
 			E11DashParity(c, r)
@@ -424,6 +432,7 @@ func init() {
 		Explanation: "Decides two structural clauses. (1) the structural part of 'lines are stacked monotonically by their line heights … Text.Bounds/Heights enclose all spans': a line's top/ascent/descent/bottom are pure component-wise math.Max folds over its spans (each accumulator folded with the same-named component of FontFace.heights(), inline objects' ascent/descent feeding the right pair), and Text.Heights combines the first line's ascent with the last line's descent. (2) a necessary condition of 'right-aligned lines end at the width, centred lines are centred, no line extends beyond the box unless Overflows is reported': the width the line breaker records for a feasible break includes the width of the penalty (the hyphen shown at the break), by the same guarded addition the fitting computation uses. NOT decided: everything else — that every character appears exactly once and in order, glyph/byte index bookkeeping, glue stretching, alignment, bidi reordering, Overflows, which are arithmetic over runtime arrays with no structural clause.",
 		Run: func(c *core.Ctx, r *core.Report) {
 			E11IndentOnEveryPath(c, r)
+			E11ObjectOwnItem(c, r)
 			E4UnboundedQuotientNotMultiplied(c, r)
 			E11NoWrapWidthSkipsLeadingGlue(c, r)
 			E3TextBoundsFold(c, r)
